@@ -337,7 +337,7 @@ func (vc *VC) resolveAtHeader(fr *frame, l *LoopInfo, hdr, envNode *Node, phiVal
 							return Val{T: sLen(a.T), Typ: x.Type()}, true
 						}
 						if isString(a.Typ) {
-							return Val{T: fmt.Sprintf("(str.len %s)", a.T), Typ: x.Type()}, true
+							return Val{T: fmt.Sprintf("(strlen %s)", a.T), Typ: x.Type()}, true
 						}
 					}
 				}
@@ -518,8 +518,8 @@ func (vc *VC) execInstr(fr *frame, n *Node, in ssa.Instruction) bool {
 			vc.boundsCheck(fr, n, idx, e.ilit(u.Len()), x.Pos())
 			vc.defVal(n, x, fmt.Sprintf("(select %s %s)", a.T, idx))
 		case *types.Basic: // string
-			vc.boundsCheck(fr, n, idx, fmt.Sprintf("(str.len %s)", a.T), x.Pos())
-			vc.defVal(n, x, e.uf("str.at", []string{"Str", e.I()}, e.sortOf(types.Typ[types.Uint8]), a.T, idx))
+			vc.boundsCheck(fr, n, idx, fmt.Sprintf("(strlen %s)", a.T), x.Pos())
+			vc.defVal(n, x, e.uf("strat", []string{"Str", e.I()}, e.sortOf(types.Typ[types.Uint8]), a.T, idx))
 		default:
 			vc.errorf("%s: Index on %s", vc.pos(x.Pos()), x.X.Type())
 			vc.havocVal(n, x, st)
@@ -700,6 +700,12 @@ func (vc *VC) zeroInit(st *State, p string, t types.Type) {
 		}
 	case *types.Array:
 		// all elements of the fresh array are zero
+		if u.Len() <= 16 {
+			for i := int64(0); i < u.Len(); i++ {
+				vc.zeroInit(st, mkPtr(pObj(p), vc.enc.ilit(i), pFld(p)), u.Elem())
+			}
+			return
+		}
 		vc.zeroFillAt(st, pObj(p), pFld(p), u.Elem())
 	default:
 		vc.store(st, p, t, vc.enc.zero(t))
@@ -741,11 +747,11 @@ func (vc *VC) execSlice(fr *frame, n *Node, x *ssa.Slice) {
 		vc.safety(fr, n, "slice", "slice bounds in range", x.Pos(), and(e.sle(z, lo), e.sle(lo, hi), e.sle(hi, mx), e.sle(mx, sCap(a.T))))
 		vc.defVal(n, x, fmt.Sprintf("(mk-slice %s %s %s %s %s)", sArr(a.T), e.add(sOff(a.T), lo), e.sub(hi, lo), e.sub(mx, lo), sFld(a.T)))
 	case *types.Basic: // string
-		hi := fmt.Sprintf("(str.len %s)", a.T)
+		hi := fmt.Sprintf("(strlen %s)", a.T)
 		if x.High != nil {
 			hi = vc.toI(vc.value(fr, n, x.High))
 		}
-		vc.safety(fr, n, "slice", "string slice bounds in range", x.Pos(), and(e.sle(z, lo), e.sle(lo, hi), e.sle(hi, fmt.Sprintf("(str.len %s)", a.T))))
+		vc.safety(fr, n, "slice", "string slice bounds in range", x.Pos(), and(e.sle(z, lo), e.sle(lo, hi), e.sle(hi, fmt.Sprintf("(strlen %s)", a.T))))
 		vc.defVal(n, x, vc.strSub(a.T, lo, hi))
 	case *types.Pointer: // pointer to array
 		at := u.Elem().Underlying().(*types.Array)
@@ -765,10 +771,10 @@ func (vc *VC) execSlice(fr *frame, n *Node, x *ssa.Slice) {
 // strSub: s[lo:hi] as an abstract string with the right length; s[0:len(s)] == s.
 func (vc *VC) strSub(s, lo, hi string) string {
 	e := vc.enc
-	e.addPre("str.sub", fmt.Sprintf("(declare-fun str.sub (Str %s %s) Str)", e.I(), e.I()))
-	e.addPre("str.sub.ax", "(assert (forall ((s Str) (a Int) (b Int)) (! (=> (and (<= 0 a) (<= a b) (<= b (str.len s))) (= (str.len (str.sub s a b)) (- b a))) :pattern ((str.sub s a b)))))\n"+
-		"(assert (forall ((s Str)) (! (= (str.sub s 0 (str.len s)) s) :pattern ((str.len s)))))")
-	return fmt.Sprintf("(str.sub %s %s %s)", s, lo, hi)
+	e.addPre("strsub", fmt.Sprintf("(declare-fun strsub (Str %s %s) Str)", e.I(), e.I()))
+	e.addPre("strsub.ax", "(assert (forall ((s Str) (a Int) (b Int)) (! (=> (and (<= 0 a) (<= a b) (<= b (strlen s))) (= (strlen (strsub s a b)) (- b a))) :pattern ((strsub s a b)))))\n"+
+		"(assert (forall ((s Str)) (! (= (strsub s 0 (strlen s)) s) :pattern ((strlen s)))))")
+	return fmt.Sprintf("(strsub %s %s %s)", s, lo, hi)
 }
 
 func (vc *VC) execConvert(fr *frame, n *Node, x *ssa.Convert, a Val) {
@@ -780,14 +786,14 @@ func (vc *VC) execConvert(fr *frame, n *Node, x *ssa.Convert, a Val) {
 		st := n.st
 		obj := vc.def("obj."+x.Name(), "Int", fmt.Sprintf("(+ %s 1)", st.wm))
 		st.wm = obj
-		ln := fmt.Sprintf("(str.len %s)", a.T)
+		ln := fmt.Sprintf("(strlen %s)", a.T)
 		vc.defVal(n, x, fmt.Sprintf("(mk-slice %s %s %s %s 0)", obj, e.ilit(0), ln, ln))
 		vc.enc.notes["string->[]byte conversion: contents abstract"] = true
 		return
 	}
 	if _, isSl := from.Underlying().(*types.Slice); isSl && isString(to) {
 		v := vc.havocVal(n, x, n.st)
-		vc.assume(implies(n.reach, fmt.Sprintf("(= (str.len %s) %s)", v.T, sLen(a.T))))
+		vc.assume(implies(n.reach, fmt.Sprintf("(= (strlen %s) %s)", v.T, sLen(a.T))))
 		vc.enc.notes["[]byte->string conversion: contents abstract"] = true
 		return
 	}
@@ -892,8 +898,8 @@ func (vc *VC) execLookup(fr *frame, n *Node, x *ssa.Lookup) {
 		vc.assume(implies(n.reach, e.wellFormed(nv.T, u.Elem(), n.st.wm)))
 	case *types.Basic: // string index
 		idx := vc.toI(k)
-		vc.boundsCheck(fr, n, idx, fmt.Sprintf("(str.len %s)", a.T), x.Pos())
-		vc.defVal(n, x, e.uf("str.at", []string{"Str", e.I()}, e.sortOf(types.Typ[types.Uint8]), a.T, idx))
+		vc.boundsCheck(fr, n, idx, fmt.Sprintf("(strlen %s)", a.T), x.Pos())
+		vc.defVal(n, x, e.uf("strat", []string{"Str", e.I()}, e.sortOf(types.Typ[types.Uint8]), a.T, idx))
 	}
 }
 
@@ -905,7 +911,7 @@ func (vc *VC) execNext(fr *frame, n *Node, x *ssa.Next) {
 	if x.IsString {
 		idx := vc.decl("next.i", e.I())
 		r := vc.decl("next.r", e.sortOf(types.Typ[types.Rune]))
-		vc.assume(implies(ok, and(e.sle(e.ilit(0), idx), e.slt(idx, fmt.Sprintf("(str.len %s)", it.T)))))
+		vc.assume(implies(ok, and(e.sle(e.ilit(0), idx), e.slt(idx, fmt.Sprintf("(strlen %s)", it.T)))))
 		n.env[x] = Val{Elems: []Val{{T: ok, Typ: boolT}, {T: idx, Typ: types.Typ[types.Int]}, {T: r, Typ: types.Typ[types.Rune]}}}
 		vc.enc.notes["range over string: iteration order and contents abstract"] = true
 		return
